@@ -1,6 +1,7 @@
 package main
 
 import (
+	"runtime/debug"
 	"bufio"
 	"bytes"
 	"encoding/hex"
@@ -274,11 +275,32 @@ func (c *Ctx) Finish(rule string, outPath string) {
 }
 
 // Guard runs f, converting a panic into a "crash" violation; returns true if it panicked
+// the innermost function of the repository on the stack of a panic
+func panicSite(stack string) string {
+	lines := strings.Split(stack, "\n")
+	after := false
+	for _, l := range lines {
+		if strings.HasPrefix(l, "panic(") {
+			after = true
+			continue
+		}
+		if after && strings.Contains(l, "nyaruka/goflow/") && !strings.HasPrefix(l, "\t") {
+			f := l[strings.Index(l, "nyaruka/goflow/")+len("nyaruka/goflow/"):]
+			if i := strings.LastIndex(f, "("); i > 0 {
+				f = f[:i]
+			}
+			return f
+		}
+	}
+	return "?"
+}
+
 func (c *Ctx) Guard(check, signature string, replay any, f func()) (panicked bool) {
 	defer func() {
 		if r := recover(); r != nil {
 			panicked = true
-			c.Fail("monitor", check, signature, fmt.Sprintf("panic: %v", r), replay)
+			site := panicSite(string(debug.Stack()))
+			c.Fail("monitor", check, strings.ReplaceAll(signature, "%site%", site), fmt.Sprintf("panic: %v (at %s)", r, site), replay)
 		}
 	}()
 	f()
